@@ -327,7 +327,7 @@ def main(argv):
     ndiff = 0
     first_diffs = []
     oracle_fails = []
-    rundir = os.path.join(BUILD, "run", "%s-%s-%d" % (pid, tier, seed))
+    rundir = os.path.join(BUILD, "run", "%s-%s-%d-%d" % (pid, tier, seed, os.getpid()))
     if ok:
         shutil.rmtree(rundir, ignore_errors=True)
         os.makedirs(rundir)
